@@ -640,10 +640,12 @@ Lemma layer_step_keeps_rid k s l id :
   rid_fresh_ok l -> s_rid s = Some id -> id <> [] ->
   exists id', s_rid (layer_step k s l) = Some id' /\ id' <> [].
 Proof.
-  intros Hok Hs Hne. destruct l as [xs fresh|xs q|]; unfold layer_step.
+  intros Hok Hs Hne. destruct l as [xs fresh|xs q|lf| |]; unfold layer_step.
   - destruct (rid_step k (rid_options xs) (s_md s) (s_rid s) fresh) as [id' md] eqn:E. cbn [s_rid].
     exists id'. split; [reflexivity|].
     pose proof (rid_step_nonempty k (rid_options xs) (s_md s) (s_rid s) fresh Hok) as H. now rewrite E in H.
+  - exists id. auto.
+  - exists id. auto.
   - exists id. auto.
   - exists id. auto.
 Qed.
@@ -674,8 +676,8 @@ Qed.
 
 Lemma layer_step_keeps_tctx k s l : is_trace_layer l = false -> s_tctx (layer_step k s l) = s_tctx s.
 Proof.
-  destruct l as [xs fresh|xs q|]; intro H; try discriminate; unfold layer_step; [|reflexivity].
-  destruct (rid_step k (rid_options xs) (s_md s) (s_rid s) fresh). reflexivity.
+  destruct l as [xs fresh|xs q|lf| |]; intro H; try discriminate; unfold layer_step; try reflexivity;
+    try (destruct (rid_step k (rid_options xs) (s_md s) (s_rid s) fresh); reflexivity).
 Qed.
 
 Lemma run_stack_keeps_tctx k ls : forall s,
@@ -701,4 +703,184 @@ Proof.
   set (s1 := run_stack k l1 s). cbn [layer_step s_tctx].
   rewrite (trace_step_inbound k _ _ (set_base q (s_tctx s1)) t Ht Hne). cbn [fst r_ctx].
   repeat split.
+Qed.
+
+(* ---------------- Log layers ---------------- *)
+
+(* below a request-id layer: the context id and (grpc) the metadata id are one value *)
+Definition rid_visible (k : kind) (s : sstate) (id : bytes) : Prop :=
+  s_rid s = Some id /\ id <> [] /\ (k <> KHttp -> hget (s_md s) XRID = id).
+
+Lemma rid_step_visible k xs fresh s :
+  fresh <> [] ->
+  exists id, rid_visible k (layer_step k s (LRid xs fresh)) id /\
+             s_logs (layer_step k s (LRid xs fresh)) = s_logs s.
+Proof.
+  intro Hf. unfold layer_step.
+  destruct (rid_step k (rid_options xs) (s_md s) (s_rid s) fresh) as [id md] eqn:E.
+  exists id. split; [|reflexivity].
+  pose proof (rid_step_nonempty k (rid_options xs) (s_md s) (s_rid s) fresh Hf) as Hne. rewrite E in Hne. simpl in Hne.
+  split; [reflexivity|]. split; [exact Hne|]. intro Hk. cbn [s_md].
+  destruct md as [m|].
+  - destruct (rid_step_writeback k (rid_options xs) (s_md s) (s_rid s) fresh id m E) as [Hv _].
+    unfold hget. now rewrite Hv.
+  - unfold rid_step in E. destruct k; try congruence; discriminate.
+Qed.
+
+Lemma log_id_visible k s id fresh : rid_visible k s id -> log_id k s fresh = id.
+Proof.
+  intros (Hs & Hne & Hmd). unfold log_id. destruct k.
+  - now rewrite Hs.
+  - rewrite Hmd by discriminate. apply is_empty_false in Hne. now rewrite Hne.
+  - rewrite Hmd by discriminate. apply is_empty_false in Hne. now rewrite Hne.
+Qed.
+
+Lemma layer_step_visible k s l id :
+  is_rid_layer l = false -> rid_visible k s id ->
+  rid_visible k (layer_step k s l) id /\
+  s_logs (layer_step k s l) = s_logs s ++ (if is_log_layer l then [id] else []).
+Proof.
+  intros Hl Hv. destruct l as [xs fresh|xs q|lf| |]; try discriminate; simpl.
+  - split; [exact Hv|now rewrite app_nil_r].
+  - split; [exact Hv|]. now rewrite (log_id_visible k s id lf Hv).
+  - split; [exact Hv|now rewrite app_nil_r].
+  - split; [exact Hv|now rewrite app_nil_r].
+Qed.
+
+Lemma run_stack_visible k ls : forall s id,
+  forallb (fun l => negb (is_rid_layer l)) ls = true -> rid_visible k s id ->
+  rid_visible k (run_stack k ls s) id /\
+  s_logs (run_stack k ls s) = s_logs s ++ repeat id (count_logs ls).
+Proof.
+  induction ls as [|l r IH]; intros s id Hl Hv; simpl.
+  - split; [exact Hv|now rewrite app_nil_r].
+  - simpl in Hl. apply andb_prop in Hl as [H1 H2].
+    assert (Hr : is_rid_layer l = false) by (now destruct (is_rid_layer l)).
+    destruct (layer_step_visible k s l id Hr Hv) as [Hv' Hlog].
+    destruct (IH _ id H2 Hv') as [Hv'' Hlog'].
+    split; [exact Hv''|]. unfold run_stack in Hlog' |- *. rewrite Hlog', Hlog, <- app_assoc.
+    f_equal. unfold count_logs. simpl. destruct (is_log_layer l); reflexivity.
+Qed.
+
+Lemma thm_stack_log_id_is_request_id k l1 xs fresh l2 s :
+  fresh <> [] -> forallb (fun l => negb (is_rid_layer l)) l2 = true ->
+  let final := run_stack k (l1 ++ LRid xs fresh :: l2) s in
+  exists id, s_rid final = Some id /\ id <> [] /\
+             s_logs final = s_logs (run_stack k l1 s) ++ repeat id (count_logs l2).
+Proof.
+  intros Hf Hl2. cbv zeta.
+  assert (E : run_stack k (l1 ++ LRid xs fresh :: l2) s =
+              run_stack k l2 (layer_step k (run_stack k l1 s) (LRid xs fresh))).
+  { unfold run_stack. rewrite fold_left_app. reflexivity. }
+  rewrite E. set (s1 := run_stack k l1 s).
+  destruct (rid_step_visible k xs fresh s1 Hf) as (id & Hv & Hlog).
+  destruct (run_stack_visible k l2 _ id Hl2 Hv) as [(Hs & Hne & _) Hlogs].
+  exists id. split; [exact Hs|]. split; [exact Hne|]. now rewrite Hlogs, Hlog.
+Qed.
+
+(* a Log layer outside every request-id layer of a fresh request: http has no id
+   yet and prints a generated one; grpc prints the caller's raw x-request-id *)
+Lemma thm_stack_log_before_request_id k fresh s :
+  s_rid s = None ->
+  s_logs (layer_step k s (LLog fresh)) = s_logs s ++
+    [match k with KHttp => fresh | _ => if is_empty (hget (s_md s) XRID) then fresh else hget (s_md s) XRID end].
+Proof. intro Hs. simpl. unfold log_id. rewrite Hs. destruct k; reflexivity. Qed.
+
+Lemma sum_writes_no_flush h : sum_writes (no_flush h) = sum_writes h.
+Proof. induction h as [|e r IH]; simpl; [reflexivity|]. destruct e; simpl; now rewrite IH. Qed.
+
+Lemma log_reports_bytes ls h : forall b, Forall (fun c => cap_bytes c = sum_writes h) (log_reports_aux b ls h).
+Proof.
+  induction ls as [|l r IH]; intro b; simpl; [constructor|].
+  destruct (is_log_layer l).
+  - constructor; [|apply IH].
+    destruct (negb (existsb is_debug_layer r) && b);
+      [apply (proj1 (thm_capture_reports_bytes_written h))|].
+    rewrite (proj1 (thm_capture_reports_bytes_written (no_flush h))). apply sum_writes_no_flush.
+  - destruct (is_debug_layer l); apply IH.
+Qed.
+
+Lemma thm_log_reports_bytes_written ls h :
+  Forall (fun c => cap_bytes c = sum_writes h) (log_reports ls h) /\
+  w_bytes (sent (writer_history ls h)) = sum_writes h.
+Proof.
+  split; [apply log_reports_bytes|].
+  unfold writer_history. destruct (existsb is_debug_layer ls).
+  - rewrite (proj2 (thm_capture_reports_bytes_written (no_flush h))). apply sum_writes_no_flush.
+  - apply (proj2 (thm_capture_reports_bytes_written h)).
+Qed.
+
+Lemma log_reports_no_debug ls h : existsb is_debug_layer ls = false ->
+  log_reports_aux true ls h = repeat (capture h) (count_logs ls).
+Proof.
+  induction ls as [|l r IH]; simpl; intro H; [reflexivity|].
+  apply orb_false_elim in H as [H1 H2]. unfold count_logs. simpl.
+  destruct (is_log_layer l).
+  - rewrite H2. simpl. f_equal. apply IH, H2.
+  - rewrite H1. apply IH, H2.
+Qed.
+
+Lemma thm_log_reports_written_partial ls h :
+  forallb final_code h = true -> existsb is_debug_layer ls = false ->
+  length (log_reports ls h) = count_logs ls /\
+  Forall (fun c => reported_status c = w_status (sent (writer_history ls h)) /\
+                   cap_bytes c = w_bytes (sent (writer_history ls h))) (log_reports ls h).
+Proof.
+  intros Hf Hd. unfold log_reports, writer_history. rewrite (log_reports_no_debug ls h Hd), Hd.
+  split; [apply repeat_length|].
+  apply Forall_forall. intros c Hc. apply repeat_spec in Hc. subst c.
+  exact (thm_capture_reports_written h Hf).
+Qed.
+
+Lemma thm_log_reports_written_refuted :
+  exists ls h, forallb final_code h = true /\ ls = [LDebug; LLog []; LLog []] /\ h = [Flush; WriteHeader 404] /\
+    exists c, In c (log_reports ls h) /\ reported_status c <> w_status (sent (writer_history ls h)).
+Proof.
+  exists [LDebug; LLog []; LLog []], [Flush; WriteHeader 404].
+  split; [reflexivity|]. split; [reflexivity|]. split; [reflexivity|].
+  exists {| cap_status := 200; cap_bytes := 0 |}. split; [vm_compute; auto|vm_compute; discriminate].
+Qed.
+
+(* ---------------- option guards ---------------- *)
+
+Definition opts_in_range (o : trace_opts) : Prop :=
+  (0 <= t_percent o <= 100)%Z /\ (0 <= t_maxrate o)%Z /\ (0 < t_size o)%Z.
+
+Lemma fold_opts_in_range xs : forall o,
+  forallb trace_opt_ok xs = true -> opts_in_range o -> opts_in_range (fold_left apply_trace_opt xs o).
+Proof.
+  induction xs as [|x r IH]; intros o Hok Ho; simpl; [exact Ho|].
+  simpl in Hok. apply andb_prop in Hok as [H1 H2]. apply IH; [exact H2|].
+  destruct Ho as (Hp & Hm & Hs). destruct x; simpl in *; unfold opts_in_range; simpl; repeat split; lia.
+Qed.
+
+Lemma thm_checked_options_in_range xs o :
+  trace_options_checked xs = Some o ->
+  (0 <= t_percent o <= 100)%Z /\ (0 <= t_maxrate o)%Z /\ (0 < t_size o)%Z.
+Proof.
+  unfold trace_options_checked. destruct (forallb trace_opt_ok xs) eqn:E; [|discriminate].
+  intros [= <-]. apply (fold_opts_in_range xs trace_default E). unfold opts_in_range, trace_default; simpl. lia.
+Qed.
+
+Lemma thm_checked_fixed_sampling_exact xs o r :
+  trace_options_checked xs = Some o -> t_maxrate o = 0%Z -> (0 <= r < 100)%Z ->
+  exists p, new_sampler o = Fixed p /\ fst (fst (sample (new_sampler o) 0 r)) = (r <? p)%Z /\
+            (p = 0%Z -> fst (fst (sample (new_sampler o) 0 r)) = false) /\
+            (p = 100%Z -> fst (fst (sample (new_sampler o) 0 r)) = true).
+Proof.
+  intros Hc Hm Hr. destruct (thm_checked_options_in_range xs o Hc) as (Hp & _ & _).
+  exists (t_percent o). unfold new_sampler. rewrite Hm. simpl.
+  rewrite (fixed_sample_spec (t_percent o) r Hp Hr). repeat split; intros ->; lia.
+Qed.
+
+Lemma thm_checked_adaptive_warmup xs o ins :
+  trace_options_checked xs = Some o -> (0 < t_maxrate o)%Z ->
+  (N.of_nat (length ins) < N.modulo (Z.to_N (t_size o)) two32)%N ->
+  fst (sample_seq (new_sampler o) ins) = repeat true (length ins).
+Proof.
+  intros Hc Hm Hl. unfold new_sampler.
+  assert ((0 <? t_maxrate o)%Z = true) as -> by lia.
+  apply (adaptive_warmup_gen (t_maxrate o) _ ins 0%N).
+  - apply N.mod_lt. unfold two32. lia.
+  - lia.
 Qed.
